@@ -41,6 +41,44 @@ POOL = {
     24: '    mv x5, Q9\n',
     25: 'Q9 = 7\n    addi x5, x0, Q9\n',
 }
+# programs that are file TREES: the same file name in several searched directories, nested includes with same-named neighbours.
+# POOL holds a marker; the tree is materialised once under the scratch directory and assembled by path with -i directories.
+TREES = {
+    26: {'files': {'proj/main.asm': 'include defs.asm\nstart:\n    li x5, VALUE\n    dw VALUE\ntable:\n    dw start\n',
+                   'inc1/defs.asm': 'VALUE = 17\n', 'inc2/defs.asm': 'VALUE = 74565\n', 'inc3/defs.asm': 'VALUE = 5\n    nop\n'},
+         'incs': ['inc1', 'inc2', 'inc3']},
+    27: {'files': {'proj/main.asm': 'include a/x.asm\ninclude b/y.asm\n', 'proj/a/x.asm': 'include_bytes data.bin\ninclude z.asm\n',
+                   'proj/a/data.bin': '\x01\x02', 'proj/a/z.asm': 'dw 1\n', 'proj/b/y.asm': 'include_bytes data.bin\ninclude z.asm\n',
+                   'proj/b/data.bin': '\x03\x04\x05', 'proj/b/z.asm': 'dw 2\n', 'inc1/other.asm': 'nop\n'},
+         'incs': ['inc1']},
+    28: {'files': {'proj/main.asm': 'include lib.asm\n    addi x5, x5, LIBV\n', 'inc1/lib.asm': 'include cfg.asm\nLIBV = CFG + 1\n',
+                   'inc1/cfg.asm': 'CFG = 10\n', 'inc2/cfg.asm': 'CFG = 20\n', 'inc2/lib.asm': 'include cfg.asm\nLIBV = CFG + 2\n'},
+         'incs': ['inc2', 'inc1']},
+}
+TREE_ROOT = None
+
+
+def materialise_trees(root):
+    global TREE_ROOT
+    TREE_ROOT = root
+    for pid, t in TREES.items():
+        for rel, content in t['files'].items():
+            p = os.path.join(root, 'tree%d' % pid, rel)
+            os.makedirs(os.path.dirname(p), exist_ok=True)
+            with open(p, 'wb') as f:
+                f.write(content.encode('latin-1'))
+        for d in t['incs']:
+            os.makedirs(os.path.join(root, 'tree%d' % pid, d), exist_ok=True)
+
+
+def tree_args(pid, root=None):
+    root = root or TREE_ROOT
+    return os.path.join(root, 'tree%d' % pid, 'proj', 'main.asm'), [os.path.join(root, 'tree%d' % pid, d) for d in TREES[pid]['incs']]
+
+
+for _pid in TREES:
+    POOL[_pid] = ('tree', _pid)
+
 BASELINE_SNIPPET = r'''
 import sys, json
 sys.path.insert(0, %r)
@@ -48,8 +86,10 @@ sys.dont_write_bytecode = True
 from bronzebeard import asm
 req = json.load(sys.stdin)
 out = []
-for src, comp, consts, labels in req:
+for src, comp, consts, labels, incs in req:
     kw = {}
+    if incs is not None:
+        kw['include_dirs'] = incs
     if consts is not None:
         kw['constants'] = consts
         kw['labels'] = labels
@@ -77,8 +117,10 @@ def tables_digest(a):
     return h.hexdigest()
 
 
-def _call(a, src, comp, consts, labels):
+def _call(a, src, comp, consts, labels, incs=None):
     kw = {}
+    if incs is not None:
+        kw['include_dirs'] = incs
     if consts is not None:
         kw['constants'] = consts
         kw['labels'] = labels
@@ -98,6 +140,9 @@ def _replay(hists):
     a = impl.asm()
     d0 = tables_digest(a)
     out = []
+    # ONE include-directory list object per tree for the whole life of this interpreter: a call must not change it
+    shared_incs = {pid: tree_args(pid)[1] for pid in TREES}
+    pristine = {pid: list(v) for pid, v in shared_incs.items()}
     for h in hists:
         prev = None
         calls = []
@@ -109,8 +154,12 @@ def _replay(hists):
             else:
                 consts, labels = prev
             inp = (copy.deepcopy(consts), copy.deepcopy(labels))
-            res = _call(a, POOL[c['p']], c['c'], consts, labels)
-            calls.append({'call': c, 'in': inp, 'res': res, 'after': (copy.deepcopy(consts), copy.deepcopy(labels)), 'tables_ok': tables_digest(a) == d0})
+            if c['p'] in TREES:
+                res = _call(a, tree_args(c['p'])[0], c['c'], consts, labels, shared_incs[c['p']])
+            else:
+                res = _call(a, POOL[c['p']], c['c'], consts, labels)
+            calls.append({'call': c, 'in': inp, 'res': res, 'after': (copy.deepcopy(consts), copy.deepcopy(labels)),
+                          'tables_ok': tables_digest(a) == d0 and shared_incs == pristine})
             prev = (consts, labels) if consts is not None else None
         out.append(calls)
     return out
@@ -129,31 +178,38 @@ def _baseline(reqs):
 
 
 def _cli_seed(args):
-    pid, comp, seed, workdir = args
+    pid, comp, seed, workdir = args[:4]
     workdir = os.path.join(workdir, '%d_%s_%s' % (pid, comp, seed))
     os.makedirs(workdir, exist_ok=True)
-    src = os.path.join(workdir, 'p%d.asm' % pid)
-    with open(src, 'w') as f:
-        f.write(POOL[pid])
+    incargs = []
+    if pid in TREES:
+        src, incs = tree_args(pid, args[4])
+        for d in incs:
+            incargs += ['-i', d]
+    else:
+        src = os.path.join(workdir, 'p%d.asm' % pid)
+        with open(src, 'w') as f:
+            f.write(POOL[pid])
     out, lab = os.path.join(workdir, 'o_%d_%s_%s.bin' % (pid, comp, seed)), os.path.join(workdir, 'l_%d_%s_%s.txt' % (pid, comp, seed))
     env = dict(os.environ)
-    if seed == 'random':
+    if str(seed).startswith('random'):
         env.pop('PYTHONHASHSEED', None)
         env['PYTHONHASHSEED'] = 'random'
     else:
         env['PYTHONHASHSEED'] = str(seed)
-    argv = [sys.executable, '-B', '-c', 'import sys; sys.path.insert(0, %r); from bronzebeard.asm import cli_main; cli_main()' % impl.REPO, src, '-o', out, '-l', lab] + (['-c'] if comp else [])
+    argv = [sys.executable, '-B', '-c', 'import sys; sys.path.insert(0, %r); from bronzebeard.asm import cli_main; cli_main()' % impl.REPO, src, '-o', out, '-l', lab] + incargs + (['-c'] if comp else [])
     p = subprocess.run(argv, cwd=workdir, stdout=subprocess.PIPE, stderr=subprocess.PIPE, timeout=120, env=env)
     return (pid, comp, seed, p.returncode, open(out, 'rb').read().hex() if os.path.exists(out) else None, open(lab).read() if os.path.exists(lab) else None,
-            p.stderr.decode(errors='replace').replace(workdir, '')[-200:])
+            p.stderr.decode(errors='replace').replace(workdir, '').replace(args[4], '')[-200:])
 
 
 def c16(run, scratch):
     cfg = os.path.join(scratch, 'sess.cfg')
     pool = set(POOL)
-    pool3 = {1, 6, 13, 14, 21, 22} if run.tier == 'quick' else {1, 2, 3, 4, 6, 8, 10, 12, 13, 14, 17, 18, 21, 22, 24, 25}
+    pool3 = {1, 6, 13, 14, 21, 22, 27} if run.tier == 'quick' else {1, 2, 3, 4, 6, 8, 10, 12, 13, 14, 17, 18, 21, 22, 24, 25, 26, 27, 28}
     tlc.write_cfg(cfg, spec='Spec', constants={'Pool': pool, 'Pool3': pool3, 'MaxLen': 3 if run.tier == 'quick' else 4},
                   invariants=['Export'], properties=['TablesConstant'])
+    materialise_trees(os.path.join(scratch, 'trees'))
     r = tlc.run('AsmSession', cfg, workers=1, heap='4g', timeout=3600)
     if not r.completed or r.property_violated:
         raise tlc.TlcFailure('AsmSession failed: ' + r.out[-1500:])
@@ -177,7 +233,8 @@ def c16(run, scratch):
     reqs = {}
     for calls in replayed:
         for c in calls:
-            reqs.setdefault(key(c), [POOL[c['call']['p']], c['call']['c'], c['in'][0], c['in'][1]])
+            pid = c['call']['p']
+            reqs.setdefault(key(c), [tree_args(pid)[0] if pid in TREES else POOL[pid], c['call']['c'], c['in'][0], c['in'][1], tree_args(pid)[1] if pid in TREES else None])
     keys = list(reqs)
     base = {}
     chunks = [keys[k::16] for k in range(16)]
@@ -201,7 +258,9 @@ def c16(run, scratch):
                               {'history': hist, 'in_history': c['after'], 'alone_in_fresh_interpreter': [b[1], b[2]]})
     # hash seeds through the CLI
     seeds = [0, 1, 2, 12345, 'random']
-    jobs = [(pid, comp, s, os.path.join(scratch, 'seed')) for pid in POOL for comp in (False, True) for s in seeds]
+    tree_seeds = seeds + [3, 4, 5, 6, 7, 8, 9, 10, 11, 99, 1000, 'random']      # directory-order effects need more seeds to show
+    jobs = [(pid, comp, s if isinstance(s, int) or n < 5 else 'random%d' % n, os.path.join(scratch, 'seed'), os.path.join(scratch, 'trees'))
+            for pid in POOL for comp in (False, True) for n, s in enumerate(tree_seeds if pid in TREES else seeds)]
     by = {}
     with ProcessPoolExecutor(max_workers=16) as ex:
         for pid, comp, s, code, out, lab, err in ex.map(_cli_seed, jobs):
@@ -215,7 +274,7 @@ def c16(run, scratch):
     run.coverage['distinct_call_inputs_baselined'] = len(base)
     run.coverage['cli_hash_seed_runs'] = len(jobs)
     run.coverage['exhaustive'] = True
-    run.coverage['rule'] = ('TLC enumerates every history of <= 3 (4) calls over 25 interfering programs (incl. pairs that share the text of every line but not its meaning) (same names as constant / label / register alias in different programs, '
+    run.coverage['rule'] = ('TLC enumerates every history of <= 3 (4) calls over 28 interfering programs (three of them file trees with the same file name in several searched directories, assembled with ONE shared include-directory list object that no call may change) (incl. pairs that share the text of every line but not its meaning) (same names as constant / label / register alias in different programs, '
                             'failures in parse / constants / immediates / encode / error directive, compressible layouts) x compress x dictionary mode (not passed / fresh / the '
                             'objects of the previous call); the third and later calls range over a sub-pool; every history is replayed in one interpreter (thousands back to back) '
                             'and each call compared with the same call alone in a fresh interpreter; module tables digested after every call; every program run through the CLI '
